@@ -18,7 +18,8 @@ CHECKS = {
  "C03": ("(UIDVALIDITY, UID) -> message identity and internal date preserved across every step (expunge, pack, "
          "rename, restart, deliveries); position/uid/key/file bijection at every command boundary.", "3 C03", MAIL_NOTE, MAIL_TECH),
  "C04": ("RFC 3501 STORE semantics per message, implicit \\Seen, \\Recent not settable, Seen/unseen complement, issuer "
-         "told, other sessions told or queued, sync point flushes; on the model exhaustively (bounded) and on traces.", "3 C04", MAIL_NOTE, MAIL_TECH),
+         "told, other sessions told or queued, sync point flushes; aggregates told by SELECT/EXAMINE/STATUS (EXISTS, RECENT, UNSEEN, first unseen) and "
+         "SEARCH by flag keys agree with the flags; on the model exhaustively (bounded) and on traces.", "3 C04", MAIL_NOTE, MAIL_TECH),
  "C05": ("Exactness of EXPUNGE/UID EXPUNGE/CLOSE/MOVE removals and APPEND/COPY/MOVE additions, refused commands change "
          "nothing, EXAMINE sessions change nothing.", "3 C05", MAIL_NOTE, MAIL_TECH),
  "C12": ("Restart inserted at random points of histories (sparse UIDs, packed folders, keywords, placeholders, renamed "
